@@ -64,8 +64,11 @@ type c06Universe struct {
 	root resolve.VersionKey
 }
 
-func c06Build() *c06Universe {
-	lc := resolve.NewLocalClient()
+type c06Entry = c05Entry
+
+// c06Entries lists the versions of the universe with their requirements.
+func c06Entries() ([]c06Entry, resolve.VersionKey) {
+	var out []c06Entry
 	root := resolve.VersionKey{PackageKey: c06PK("r"), VersionType: resolve.Concrete, Version: "1.0.0"}
 	var rr []resolve.RequirementVersion
 	for s := 0; s < 3; s++ {
@@ -73,7 +76,7 @@ func c06Build() *c06Universe {
 			rr = append(rr, r)
 		}
 	}
-	lc.AddVersion(resolve.Version{VersionKey: root}, rr)
+	out = append(out, c06Entry{v: resolve.Version{VersionKey: root}, reqs: rr})
 	for pi, p := range c06Names {
 		nv := vParam("nv" + c06N[pi])
 		prev := ""
@@ -102,10 +105,17 @@ func c06Build() *c06Universe {
 			if vParam("blocked"+c06N[pi]) == vi {
 				attrs.SetAttr(version.Blocked, "")
 			}
-			lc.AddVersion(resolve.Version{VersionKey: resolve.VersionKey{PackageKey: c06PK(p), VersionType: resolve.Concrete, Version: ver}, AttrSet: attrs}, reqs)
+			out = append(out, c06Entry{v: resolve.Version{VersionKey: resolve.VersionKey{PackageKey: c06PK(p), VersionType: resolve.Concrete, Version: ver}, AttrSet: attrs}, reqs: reqs})
 		}
 	}
-	return &c06Universe{lc: lc, root: root}
+	return out, root
+}
+
+func c06Client(es []c06Entry, reversed bool) *resolve.LocalClient { return c05Client(es, reversed) }
+
+func c06Build() *c06Universe {
+	es, root := c06Entries()
+	return &c06Universe{lc: c06Client(es, false), root: root}
 }
 
 // c06Satisfies: the edge's requirement admits the version (range, tag, or exact string).
@@ -236,4 +246,151 @@ func VerifC06Resolve() {
 			vAssert(chosen.Version == want.Version, "a dependency installed afresh is the latest-tagged version if it satisfies, else the highest satisfying non-deprecated one")
 		}
 	}
+}
+
+
+// ---- C05: resolution is a pure function of the universe and the root
+
+type c05Entry struct {
+	v    resolve.Version
+	reqs []resolve.RequirementVersion
+}
+
+func c05Client(es []c05Entry, reversed bool) *resolve.LocalClient {
+	lc := resolve.NewLocalClient()
+	for k := range es {
+		e := es[k]
+		if reversed {
+			e = es[len(es)-1-k]
+		}
+		lc.AddVersion(e.v, append([]resolve.RequirementVersion(nil), e.reqs...))
+	}
+	return lc
+}
+
+type c05Snap struct {
+	reqs [][]resolve.RequirementVersion
+	vers [][]resolve.Version
+}
+
+func c05Take(lc *resolve.LocalClient, es []c05Entry) *c05Snap {
+	ctx := context.Background()
+	s := &c05Snap{}
+	for _, e := range es {
+		rs, _ := lc.Requirements(ctx, e.v.VersionKey)
+		s.reqs = append(s.reqs, append([]resolve.RequirementVersion(nil), rs...))
+		vs, _ := lc.Versions(ctx, e.v.PackageKey)
+		s.vers = append(s.vers, append([]resolve.Version(nil), vs...))
+	}
+	return s
+}
+
+func c05SameSnap(a, b *c05Snap, what string) {
+	ok := true
+	for i := range a.reqs {
+		if len(a.reqs[i]) != len(b.reqs[i]) || len(a.vers[i]) != len(b.vers[i]) {
+			ok = false
+			continue
+		}
+		for j := range a.reqs[i] {
+			ok = vAnd(ok, vAnd(a.reqs[i][j].VersionKey == b.reqs[i][j].VersionKey, a.reqs[i][j].Type.Equal(b.reqs[i][j].Type)))
+		}
+		for j := range a.vers[i] {
+			ok = vAnd(ok, vAnd(a.vers[i][j].VersionKey == b.vers[i][j].VersionKey, a.vers[i][j].AttrSet.Equal(b.vers[i][j].AttrSet)))
+		}
+	}
+	vAssert(ok, what+": the client reports the same requirements and versions, in the same order, as before")
+}
+
+func c05Clone(g *resolve.Graph) *resolve.Graph {
+	if g == nil {
+		return nil
+	}
+	c := &resolve.Graph{Error: g.Error}
+	for _, n := range g.Nodes {
+		c.Nodes = append(c.Nodes, resolve.Node{Version: n.Version, Errors: append([]resolve.NodeError(nil), n.Errors...)})
+	}
+	c.Edges = append(c.Edges, g.Edges...)
+	return c
+}
+
+func c05SameGraph(g1, g2 *resolve.Graph, what string) {
+	if g1 == nil || g2 == nil {
+		vAssert(g1 == nil && g2 == nil, what+": both resolutions fail or both succeed")
+		return
+	}
+	vAssert((g1.Error == "") == (g2.Error == ""), what+": both report a graph error or neither")
+	vAssert(len(g1.Nodes) == len(g2.Nodes) && len(g1.Edges) == len(g2.Edges), what+": the same number of nodes and edges")
+	if len(g1.Nodes) != len(g2.Nodes) || len(g1.Edges) != len(g2.Edges) {
+		return
+	}
+	// Order-insensitive comparison (counting equal elements on both sides avoids sorting symbolic data):
+	// every node and every edge occurs equally often in both graphs. One obligation per comparison.
+	ok := len(g1.Nodes) == 0 || g1.Nodes[0].Version == g2.Nodes[0].Version
+	for _, n := range g1.Nodes {
+		c1, c2 := 0, 0
+		for _, m := range g1.Nodes {
+			c1 += vIteInt(vAnd(m.Version == n.Version, len(m.Errors) == len(n.Errors)), 1, 0)
+		}
+		for _, m := range g2.Nodes {
+			c2 += vIteInt(vAnd(m.Version == n.Version, len(m.Errors) == len(n.Errors)), 1, 0)
+		}
+		ok = vAnd(ok, c1 == c2)
+	}
+	same := func(ga *resolve.Graph, a resolve.Edge, gb *resolve.Graph, b resolve.Edge) bool {
+		return vAnd(vAnd(ga.Nodes[a.From].Version == gb.Nodes[b.From].Version, ga.Nodes[a.To].Version == gb.Nodes[b.To].Version),
+			vAnd(a.Requirement == b.Requirement, a.Type.Equal(b.Type)))
+	}
+	for _, e := range g1.Edges {
+		c1, c2 := 0, 0
+		for _, f := range g1.Edges {
+			c1 += vIteInt(same(g1, e, g1, f), 1, 0)
+		}
+		for _, f := range g2.Edges {
+			c2 += vIteInt(same(g1, e, g2, f), 1, 0)
+		}
+		ok = vAnd(ok, c1 == c2)
+	}
+	vAssert(ok, what+": the same graph (root, nodes and edges)")
+}
+
+// c05Purity runs the purity clauses with the given resolver constructor.
+func c05Purity(es []c05Entry, root resolve.VersionKey, mk func(resolve.Client) resolve.Resolver) {
+	lc := c05Client(es, false)
+	ctx := context.Background()
+	before := c05Take(lc, es)
+	r := mk(lc)
+	g1, err1 := r.Resolve(ctx, root)
+	if err1 != nil {
+		g1 = nil
+	}
+	vCover(g1 != nil && len(g1.Nodes) > 1, "resolved a graph with dependencies")
+	c05SameSnap(before, c05Take(lc, es), "after Resolve")
+	g1b, err := r.Resolve(ctx, root)
+	if err != nil {
+		g1b = nil
+	}
+	c05SameGraph(c05Clone(g1), c05Clone(g1b), "asking again")
+	if len(es) > 1 {
+		alt := es[1+vParam("alt")%(len(es)-1)].v.VersionKey
+		_, _ = r.Resolve(ctx, alt)
+		vCover(true, "other root resolved in between")
+		g1c, err := r.Resolve(ctx, root)
+		if err != nil {
+			g1c = nil
+		}
+		c05SameGraph(c05Clone(g1), c05Clone(g1c), "after resolving another root on the same resolver")
+		c05SameSnap(before, c05Take(lc, es), "after resolving another root")
+	}
+	lc2 := c05Client(es, true)
+	g2, err := mk(lc2).Resolve(ctx, root)
+	if err != nil {
+		g2 = nil
+	}
+	c05SameGraph(c05Clone(g1), c05Clone(g2), "with the versions inserted in the opposite order")
+}
+
+func VerifC05Npm() {
+	es, root := c06Entries()
+	c05Purity(es, root, NewResolver)
 }
